@@ -429,6 +429,27 @@ Spans of submodels differ:
         NaN/Inf, from it being propagated (it's not immediately obvious if this
         has any use, though).
         """
+        # Error if `min_iter` exceeds `max_iter`
+        if min_iter > max_iter:
+            raise ValueError(
+                f'Value of `min_iter` ({min_iter}) '
+                f'cannot exceed value of `max_iter` ({max_iter})'
+            )
+
+        # Error if the period at `t` cannot accommodate the lags and leads of
+        # the submodels (indexing would otherwise wrap round to the other end
+        # of the span)
+        t_position = t
+        if t_position < 0:
+            t_position += len(self.span)
+
+        if t_position < self.lags or t_position > len(self.span) - 1 - self.leads:
+            raise IndexError(
+                f'Position `t` ({t}) cannot accommodate the lags ({self.lags}) '
+                f'and leads ({self.leads}) of the current linker instance, '
+                f'which has {len(self.span)} period(s) in its span'
+            )
+
         if submodels is None:
             submodels = list(self.__dict__['submodels'].keys())
 
